@@ -3,7 +3,7 @@ import ALock.Lemmas.Event
 /-!
 # Every outstanding wake-up belongs to its own notified listener
 
-`WOK q w`: the owners of the queue's entries are pairwise distinct (a future has at most one
+`WOK q w`: the ownerIds of the queue's entries are pairwise distinct (a future has at most one
 listener), the outstanding wake-ups `w` are pairwise distinct, and each of them is the owner of a
 *notified* entry.  It is preserved by everything the models do with an event.  Consequence: there
 are never more outstanding wake-ups than registered listeners (`WOK.length_le`), which turns the
@@ -12,10 +12,10 @@ bounds `n ≤ woken + c · pending` of C17 into bounds in `pending` alone.
 
 namespace ALock
 
-def owners (q : List Entry) : List Nat := q.map (·.owner)
+def ownerIds (q : List Entry) : List Nat := q.map (·.owner)
 
 structure WOK (q : List Entry) (w : List Nat) : Prop where
-  nq : (owners q).Nodup
+  nq : (ownerIds q).Nodup
   nw : w.Nodup
   reg : ∀ f ∈ w, ∃ e ∈ q, e.owner = f ∧ e.notified = true
 
@@ -37,22 +37,22 @@ theorem nodup_subset_length : ∀ (l m : List Nat), l.Nodup → (∀ x ∈ l, x 
 
 /-- never more outstanding wake-ups than listeners -/
 theorem WOK.length_le {q : List Entry} {w : List Nat} (h : WOK q w) : w.length ≤ q.length := by
-  have := nodup_subset_length w (owners q) h.nw (by
+  have := nodup_subset_length w (ownerIds q) h.nw (by
     intro f hf
     obtain ⟨e, he, rfl, _⟩ := h.reg f hf
     exact List.mem_map.mpr ⟨e, he, rfl⟩)
-  simpa [owners] using this
+  simpa [ownerIds] using this
 
-theorem owners_notifyQ (add : Bool) (n : Nat) (q : List Entry) : owners (notifyQ add n q) = owners q := by
-  fun_induction notifyQ add n q <;> simp_all [owners]
+theorem ownerIds_notifyQ (add : Bool) (n : Nat) (q : List Entry) : ownerIds (notifyQ add n q) = ownerIds q := by
+  fun_induction notifyQ add n q <;> simp_all [ownerIds]
 
 /-- an entry with a unique owner: the entry of `f` -/
-theorem entry_unique {q : List Entry} (hn : (owners q).Nodup) {e e' : Entry} (he : e ∈ q) (he' : e' ∈ q)
+theorem entry_unique {q : List Entry} (hn : (ownerIds q).Nodup) {e e' : Entry} (he : e ∈ q) (he' : e' ∈ q)
     (ho : e.owner = e'.owner) : e = e' := by
   induction q with
   | nil => cases he
   | cons x xs ih =>
-    simp only [owners, List.map_cons, List.nodup_cons] at hn
+    simp only [ownerIds, List.map_cons, List.nodup_cons] at hn
     simp only [List.mem_cons] at he he'
     rcases he with rfl | he <;> rcases he' with rfl | he'
     · rfl
@@ -60,16 +60,16 @@ theorem entry_unique {q : List Entry} (hn : (owners q).Nodup) {e e' : Entry} (he
     · exact absurd (List.mem_map.mpr ⟨e, he, ho⟩) hn.1
     · exact ih hn.2 he he'
 
-/-- the owners `notifyO` wakes had an un-notified entry, and have a notified one afterwards; the
+/-- the ownerIds `notifyO` wakes had an un-notified entry, and have a notified one afterwards; the
 notified entries stay -/
 theorem notifyO_spec (add : Bool) (n : Nat) (q : List Entry) :
     (∀ f ∈ notifyO n q, (∃ e ∈ q, e.owner = f ∧ e.notified = false) ∧
       ∃ e ∈ notifyQ add n q, e.owner = f ∧ e.notified = true) ∧
     (∀ e ∈ q, e.notified = true → e ∈ notifyQ add n q) ∧
-    (notifyO n q).Sublist (owners q) := by
+    (notifyO n q).Sublist (ownerIds q) := by
   fun_induction notifyQ add n q with
   | case1 q => exact ⟨by simp [notifyO], fun e he _ => he, by simp [notifyO]⟩
-  | case2 n hn => simp [notifyO, owners]
+  | case2 n hn => simp [notifyO, ownerIds]
   | case3 n e q hen ih =>
     obtain ⟨i1, i2, i3⟩ := ih
     simp only [notifyO, hen, if_true]
@@ -82,8 +82,8 @@ theorem notifyO_spec (add : Bool) (n : Nat) (q : List Entry) :
       rcases hx with rfl | hx
       · exact Or.inl rfl
       · exact Or.inr (i2 x hx hxn)
-    · simp only [owners, List.map_cons]
-      exact List.Sublist.cons _ (by simpa [owners] using i3)
+    · simp only [ownerIds, List.map_cons]
+      exact List.Sublist.cons _ (by simpa [ownerIds] using i3)
   | case4 n e q hen ih =>
     obtain ⟨i1, i2, i3⟩ := ih
     have hen' : e.notified = false := by simpa using hen
@@ -104,17 +104,17 @@ theorem notifyO_spec (add : Bool) (n : Nat) (q : List Entry) :
       rcases hx with rfl | hx
       · rw [hen'] at hxn; cases hxn
       · exact Or.inr (i2 x hx hxn)
-    · simp only [owners, List.map_cons]
+    · simp only [ownerIds, List.map_cons]
       by_cases ht : e.task.isSome = true
       · simp only [ht, if_true]
-        exact List.Sublist.cons_cons _ (by simpa [owners] using i3)
+        exact List.Sublist.cons_cons _ (by simpa [ownerIds] using i3)
       · simp only [ht, Bool.false_eq_true, if_false]
-        exact List.Sublist.cons _ (by simpa [owners] using i3)
+        exact List.Sublist.cons _ (by simpa [ownerIds] using i3)
 
 theorem WOK.notifyK {q : List Entry} {w : List Nat} (h : WOK q w) (add : Bool) (k : Nat) :
     WOK (notifyQ add k q) (notifyO k q ++ w) := by
   obtain ⟨s1, s2, s3⟩ := notifyO_spec add k q
-  refine ⟨by rw [owners_notifyQ]; exact h.nq, ?_, ?_⟩
+  refine ⟨by rw [ownerIds_notifyQ]; exact h.nq, ?_, ?_⟩
   · refine List.nodup_append.mpr ⟨s3.nodup h.nq, h.nw, ?_⟩
     intro a ha b hb hab
     subst hab
@@ -133,13 +133,13 @@ theorem WOK.notifyK {q : List Entry} {w : List Nat} (h : WOK q w) (add : Bool) (
 theorem WOK.notify {q : List Entry} {w : List Nat} (h : WOK q w) (add : Bool) (n : Nat) :
     WOK (Ev.notify add n q) (Ev.notifyOwners add n q ++ w) := h.notifyK add _
 
-theorem owners_erase_sublist (q : List Entry) (f : Nat) : (owners (Ev.erase q f)).Sublist (owners q) := by
-  simp only [owners, Ev.erase]
+theorem ownerIds_erase_sublist (q : List Entry) (f : Nat) : (ownerIds (Ev.erase q f)).Sublist (ownerIds q) := by
+  simp only [ownerIds, Ev.erase]
   exact List.Sublist.map _ List.filter_sublist
 
 theorem WOK.erase {q : List Entry} {w : List Nat} (h : WOK q w) (f : Nat) :
     WOK (Ev.erase q f) (w.filter (· != f)) := by
-  refine ⟨(owners_erase_sublist q f).nodup h.nq, h.nw.filter _, ?_⟩
+  refine ⟨(ownerIds_erase_sublist q f).nodup h.nq, h.nw.filter _, ?_⟩
   intro g hg
   simp only [List.mem_filter, bne_iff_ne, ne_eq] at hg
   obtain ⟨e, he, h1, h2⟩ := h.reg g hg.1
@@ -161,7 +161,7 @@ theorem WOK.weaken {q : List Entry} {w w' : List Nat} (h : WOK q w) (hs : w'.Sub
 theorem WOK.append {q : List Entry} {w : List Nat} (h : WOK q w) (e : Entry)
     (hf : Ev.has q e.owner = false) : WOK (q ++ [e]) w := by
   refine ⟨?_, h.nw, ?_⟩
-  · simp only [owners, List.map_append, List.map_cons, List.map_nil]
+  · simp only [ownerIds, List.map_append, List.map_cons, List.map_nil]
     refine List.nodup_append.mpr ⟨h.nq, by simp, ?_⟩
     intro a ha b hb hab
     simp only [List.mem_singleton] at hb
@@ -178,8 +178,8 @@ theorem WOK.append {q : List Entry} {w : List Nat} (h : WOK q w) (e : Entry)
 theorem WOK.listen {q : List Entry} {w : List Nat} (h : WOK q w) (f : Nat)
     (hf : Ev.has q f = false) : WOK (Ev.listen q f) w := h.append { owner := f } hf
 
-theorem owners_setTask (q : List Entry) (f t : Nat) : owners (Ev.setTask q f t) = owners q := by
-  simp only [owners, Ev.setTask, List.map_map]
+theorem ownerIds_setTask (q : List Entry) (f t : Nat) : ownerIds (Ev.setTask q f t) = ownerIds q := by
+  simp only [ownerIds, Ev.setTask, List.map_map]
   apply List.map_congr_left
   intro e _
   simp only [Function.comp]
@@ -187,7 +187,7 @@ theorem owners_setTask (q : List Entry) (f t : Nat) : owners (Ev.setTask q f t) 
 
 theorem WOK.setTask {q : List Entry} {w : List Nat} (h : WOK q w) (f t : Nat) :
     WOK (Ev.setTask q f t) w := by
-  refine ⟨by rw [owners_setTask]; exact h.nq, h.nw, ?_⟩
+  refine ⟨by rw [ownerIds_setTask]; exact h.nq, h.nw, ?_⟩
   intro g hg
   obtain ⟨x, hx, h1, h2⟩ := h.reg g hg
   refine ⟨if x.owner == f then { x with task := some t } else x, ?_, ?_, ?_⟩
@@ -203,13 +203,13 @@ theorem has_erase_self (q : List Entry) (f : Nat) : Ev.has (Ev.erase q f) f = fa
 
 /-! ### the same with a second queue `r` that shares the wake-up list -/
 
-theorem owners_append (q r : List Entry) : owners (q ++ r) = owners q ++ owners r := by
-  simp [owners]
+theorem ownerIds_append (q r : List Entry) : ownerIds (q ++ r) = ownerIds q ++ ownerIds r := by
+  simp [ownerIds]
 
 theorem WOK.comm {q r : List Entry} {w : List Nat} (h : WOK (q ++ r) w) : WOK (r ++ q) w := by
   refine ⟨?_, h.nw, ?_⟩
   · have := h.nq
-    rw [owners_append] at this ⊢
+    rw [ownerIds_append] at this ⊢
     exact (List.perm_append_comm.nodup_iff).mp this
   · intro f hf
     obtain ⟨e, he, h1, h2⟩ := h.reg f hf
@@ -218,9 +218,9 @@ theorem WOK.comm {q r : List Entry} {w : List Nat} (h : WOK (q ++ r) w) : WOK (r
 theorem WOK.notifyK_ctx {q r : List Entry} {w : List Nat} (h : WOK (q ++ r) w) (add : Bool) (k : Nat) :
     WOK (notifyQ add k q ++ r) (notifyO k q ++ w) := by
   obtain ⟨s1, s2, s3⟩ := notifyO_spec add k q
-  have hnq : (owners q).Nodup := by
-    have := h.nq; rw [owners_append] at this; exact (List.nodup_append.mp this).1
-  refine ⟨by rw [owners_append, owners_notifyQ, ← owners_append]; exact h.nq, ?_, ?_⟩
+  have hnq : (ownerIds q).Nodup := by
+    have := h.nq; rw [ownerIds_append] at this; exact (List.nodup_append.mp this).1
+  refine ⟨by rw [ownerIds_append, ownerIds_notifyQ, ← ownerIds_append]; exact h.nq, ?_, ?_⟩
   · refine List.nodup_append.mpr ⟨s3.nodup hnq, h.nw, ?_⟩
     intro a ha b hb hab
     subst hab
@@ -246,8 +246,8 @@ theorem WOK.erase_ctx {q r : List Entry} {w : List Nat} (h : WOK (q ++ r) w) (f 
     WOK (Ev.erase q f ++ r) (w.filter (· != f)) := by
   refine ⟨?_, h.nw.filter _, ?_⟩
   · have := h.nq
-    rw [owners_append] at this ⊢
-    exact (List.Sublist.append (owners_erase_sublist q f) (List.Sublist.refl _)).nodup this
+    rw [ownerIds_append] at this ⊢
+    exact (List.Sublist.append (ownerIds_erase_sublist q f) (List.Sublist.refl _)).nodup this
   · intro g hg
     simp only [List.mem_filter, bne_iff_ne, ne_eq] at hg
     obtain ⟨e, he, h1, h2⟩ := h.reg g hg.1
@@ -278,7 +278,7 @@ theorem WOK.append_ctx {q r : List Entry} {w : List Nat} (h : WOK (q ++ r) w) (e
   -- ([e] ++ q) ++ r  vs  (q ++ [e]) ++ r: swap inside
   refine ⟨?_, h.nw, ?_⟩
   · have hn := this.nq
-    simp only [owners, List.map_append, List.map_cons, List.map_nil] at hn ⊢
+    simp only [ownerIds, List.map_append, List.map_cons, List.map_nil] at hn ⊢
     refine (List.Perm.nodup_iff ?_).mp hn
     exact List.Perm.append_right _ List.perm_append_comm
   · intro g hg
@@ -295,7 +295,7 @@ theorem WOK.listen_ctx {q r : List Entry} {w : List Nat} (h : WOK (q ++ r) w) (f
 
 theorem WOK.setTask_ctx {q r : List Entry} {w : List Nat} (h : WOK (q ++ r) w) (f t : Nat) :
     WOK (Ev.setTask q f t ++ r) w := by
-  refine ⟨by rw [owners_append, owners_setTask, ← owners_append]; exact h.nq, h.nw, ?_⟩
+  refine ⟨by rw [ownerIds_append, ownerIds_setTask, ← ownerIds_append]; exact h.nq, h.nw, ?_⟩
   intro g hg
   obtain ⟨x, hx, h1, h2⟩ := h.reg g hg
   rcases List.mem_append.mp hx with hx | hx
